@@ -9,6 +9,7 @@ import NumbersModel.Model.TokenizerCfg
 import NumbersModel.Lemmas.FormulaAccept
 import NumbersModel.Props.C08
 import NumbersModel.Lemmas.TrTok
+import NumbersModel.Lemmas.TrTokParse
 namespace NumbersModel.Props.C18
 open NumbersModel NumbersModel.Tokenizer
 
@@ -128,12 +129,16 @@ example : (tokenize liveCfg "Bob'''s+1".toList).toOption = none := by decide +ke
 
 end NumbersModel.Props.C18
 
-/-! ## The token-buffer methods translated from the Python source
+/-! ## The tokenizer translated from the Python source
 
-`Gen/TrTok.lean` is regenerated by `harness/py2lean.py` from `Tokenizer.assert_empty_token` / `Tokenizer.save_token` in the
-working tree on every check run, with `self.items` / `self.token` threaded as state variables.  The source keeps the pending
-token as a list of pieces, the model as their join; `Lemmas/TrTok.lean` proves the two methods refine `assertEmpty` /
-`saveToken` under the representation invariant `Rep` (join of the pieces, no empty piece). -/
+`Gen/TrTok.lean` is regenerated by `harness/py2lean.py` from `tokenizer.py` in the working tree on every check run: the `Token`
+constructors (`make_subexp`, `get_closer`, `make_separator`) and every method of `Tokenizer` (`assert_empty_token`, `save_token`,
+`check_scientific_notation`, `parse_string`, `parse_error`, `parse_operator`, `parse_opener`, `parse_closer`, `parse_separator`,
+`parse` with its dispatch dict and `while` loop), the instance attributes threaded as state variables.  The source works on
+`formula` / `offset` and keeps the pending token as a list of pieces; the model on `rest = formula[offset:]` and the joined
+token.  `Lemmas/TrTok.lean` proves every method refines the model's function under the simulation `Pos` / `Rep` / `StackOK`,
+`Lemmas/TrTokParse.lean` that one loop iteration is one `step`, that the fuel `len(formula) + 1` suffices, and
+`parse_refines_model : srcTokenize s = tokenize liveCfg s`.  The clauses of C18 are restated below over the translation. -/
 namespace NumbersModel.Props.C18.Src
 open NumbersModel NumbersModel.Tokenizer NumbersModel.Gen.T NumbersModel.Translated
 
@@ -147,7 +152,54 @@ theorem src_save_token (pieces : List Text) (st : St) (h : Rep pieces st) :
     ∃ pieces', save_token st.items pieces = .ok ((), (saveToken st).items, pieces') ∧ Rep pieces' (saveToken st) :=
   save_token_eq_model pieces st h
 
+/-- `check_scientific_notation` consumes the sign exactly when the model's `step` does (pending token of the `1E` shape) -/
+theorem src_check_scientific_notation {f : Text} {o : Int} {st : St} {pieces : List Text} {c : Char} {r : Text}
+    (hp : Pos f o st) (hr : Rep pieces st) (hrs : st.rest = c :: r) :
+    check_scientific_notation f o pieces =
+      .ok (if (c = '+' ∨ c = '-') ∧ st.token.length ≥ 1 ∧ snMatch st.token = true
+        then (true, o + 1, pieces ++ [[c]]) else (false, o, pieces)) :=
+  check_scientific_notation_refines_model hp hr hrs
+
+/-- every iteration of the source's `while` loop is one `step` of the model: same exception, or related next states -/
+theorem src_loop_iteration (n : Nat) {f : Text} {o : Int} {st : St} {pieces : List Text} {c : Char} {r : Text}
+    (hp : Pos f o st) (hr : Rep pieces st) (hs : StackOK st) (hrs : st.rest = c :: r) :
+    StepRel n f (parse.loop1 (n + 1) f o pieces st.items st.stack) (step liveCfg st) :=
+  loop1_step n hp hr hs hrs
+
+/-- the translated `Tokenizer(formula).items` IS the model's `tokenize`, for every string -/
+theorem src_parse_refines (s : Text) : srcTokenize s = tokenize liveCfg s := parse_refines_model s
+
+/-- (1) lossless, over the source: the token texts concatenated in order are the input -/
+theorem src_tokenize_lossless (s : Text) (toks : List Tok) (h : srcTokenize s = .ok toks) :
+    (toks.map (·.value)).flatten = s :=
+  tokenize_lossless s toks (parse_refines_model s ▸ h)
+
+/-- (2) total, over the source: a token list or TokenizerError, for every string — no IndexError from `formula[offset]`,
+    `items[-1]`, `token_stack.pop()`, no KeyError from the dispatcher or `STRING_REGEXES[delim]` -/
+theorem src_tokenize_total (s : Text) :
+    (∃ toks, srcTokenize s = .ok toks) ∨ srcTokenize s = .error .TokenizerError := by
+  rw [parse_refines_model s]; exact tokenize_total s
+
+/-- the `while` loop of the source ends within `len(formula) + 1` iterations: the fuel of the translation suffices -/
+theorem src_parse_fuel_suffices (s : Text) : srcTokenize s ≠ .error .OutOfFuel := by
+  rw [parse_refines_model s]; exact tokenize_terminates s
+
+/-- (3) quotes never split, over the source -/
+theorem src_quotes_not_split (s : Text) (toks : List Tok) (h : srcTokenize s = .ok toks) :
+    ∀ t ∈ toks, WellQuoted Gen.whitespace t.value :=
+  quotes_not_split s toks (parse_refines_model s ▸ h)
+
+/-- (4a) every text of the formula grammar is accepted, over the source -/
+theorem src_grammar_accepted (t : Text) (h : G true t) : ∃ toks, srcTokenize t = .ok toks := by
+  rw [parse_refines_model t]; exact grammar_accepted t h
+
 example : save_token [] ["SUM".toList, "(".toList] = .ok ((), [makeOperand "SUM(".toList], []) := by decide +kernel
 example : assert_empty_token [['a']] = .error .TokenizerError ∧ assert_empty_token [] = .ok () := by decide
+example : (srcTokenize "SUM(1E+3,'a':'b')≥\"x\"\"y\"".toList).toOption.map (·.map (·.value)) =
+    some ["SUM(".toList, "1E+3".toList, ",".toList, "'a':'b'".toList, ")".toList, "≥".toList, "\"x\"\"y\"".toList] := by
+  decide +kernel
+example : srcTokenize ")".toList = .error .TokenizerError := by decide +kernel
+example : parse_closer ")".toList 0 [] [⟨"f(".toList, .FUNC, .OPEN⟩] = .ok (1, [⟨")".toList, .FUNC, .CLOSE⟩], []) := by
+  decide +kernel
 
 end NumbersModel.Props.C18.Src
